@@ -14,7 +14,8 @@ RULE = ('generated dataset directories (dense integer templates, 2-5 templates, 
         'integer inverse whitening, KS and ALF names, id dtypes) whose cluster vector is produced from the template vector by '
         'a history of 0-6 merges, merges into an existing id, splits (incl. one-spike and emptying splits), reassignments '
         '(incl. gaps of empty ids) and id swaps; corpus of boundary cases first (last template without spikes, count ties, '
-        'empty ids at both ends, one-spike clusters), then an exhaustive small scope (every cluster vector over ids {0,1,2,4} '
+        'empty ids at both ends and on both sides of n_templates, one-spike clusters, clusters = templates with a template '
+        'without spikes at the start / in the middle / at the end), then an exhaustive small scope (every cluster vector over ids {0,1,2,4} '
         'for fixed 4-spike template vectors), then the seeded random stream. Non-trivial = the directory loads and the '
         'curated branch is taken (or the identity branch with an unused template); distinct = distinct abstract input.')
 EXHAUSTIVE = {'quick': True, 'thorough': True}
@@ -22,7 +23,8 @@ CLAUSES = {
     1: 'observed merge_map / nan_idx / n_clusters / sparse_clusters.data / mean waveforms differ from the Coq model PV.C08.Model.load',
     20: 'a well-formed curated dataset failed to load (or a cluster mean waveform query raised)',
     21: 'C08_merge_map: some id in [0, max] does not map to exactly the (increasing, duplicate-free) templates of its spikes',
-    22: 'C08_merge_map: nan_idx is not exactly the ids in [0, max] without spikes',
+    22: 'C08_merge_map / C08_nan_idx_both_branches: nan_idx is not exactly the ids without spikes (of [0, max] when curated, '
+        'of range(n_templates) when clusters = templates)',
     23: 'C08_single: a cluster stemming from one template does not carry that template unchanged on all channels',
     24: 'C08_mean: a cluster stemming from several templates does not carry, on the channels of a dominant template, the '
         'spike-count weighted mean of the channel-restricted templates (zero elsewhere)',
@@ -52,6 +54,16 @@ def _corpus(rng):
     out.append(G.gen_input(rng, nt=4, st=[2, 0, 0], sc=[2, 0, 0], names='alf', **small))
     # identity with a middle template unused
     out.append(G.gen_input(rng, nt=3, st=[0, 2, 2, 0], sc=[0, 2, 2, 0], **small))
+    # nan_idx pass (fix-c14b): clusters = templates, a template without spikes at the START / in the MIDDLE / at the END /
+    # all three / none: nan_idx must list exactly those ids (it was [] before the repair)
+    out.append(G.gen_input(rng, nt=3, st=[1, 2, 2], sc=[1, 2, 2], write_clusters=False, **small))
+    out.append(G.gen_input(rng, nt=4, st=[0, 1, 3], sc=[0, 1, 3], write_clusters=False, **small))
+    out.append(G.gen_input(rng, nt=4, st=[0, 1, 2, 1], sc=[0, 1, 2, 1], write_clusters=True, names='alf', **small))
+    out.append(G.gen_input(rng, nt=5, st=[1, 3, 3], sc=[1, 3, 3], write_clusters=True, id_dtype='int64', clu_dtype='uint32', **small))
+    out.append(G.gen_input(rng, nt=3, st=[2, 0, 1, 1], sc=[2, 0, 1, 1], write_clusters=False, **small))
+    # curated, emptied ids below AND above n_templates (merge 0+1 -> 3, 3 split into 5 and 6; 4 never used)
+    out.append(G.gen_input(rng, nt=3, st=[0, 1, 2, 2], sc=[5, 6, 2, 2], **small))
+    out.append(G.gen_input(rng, nt=3, st=[0, 1, 2, 2, 0], sc=[5, 5, 7, 2, 5], **small))
     # one merge of two templates with different counts / with a tie
     out.append(G.gen_input(rng, nt=2, st=[0, 0, 1], sc=[2, 2, 2], nc=5, ns=2, shanks='two', whitening='none'))
     out.append(G.gen_input(rng, nt=2, st=[0, 1], sc=[2, 2], nc=5, ns=2, shanks='two', whitening='none'))
@@ -98,7 +110,7 @@ def generate(tier, rng):
         r = rng.random()
         if r < 0.08:
             o['n_ops'] = 0
-            o['last_unused'] = rng.random() < 0.6
+            o['unused'] = rng.choice(['start', 'middle', 'end', 'end', 'ends', 'none'])
         elif r < 0.16:
             o['last_unused'] = True
         cases.append({'kind': 'load', 'inp': G.gen_input(rng, **o)})
@@ -223,6 +235,10 @@ def dist(case, obs):
         out.append('count_tie=%s' % tie)
     else:
         out.append('unused_last_template=%s' % (max(inp['st']) + 1 < len(inp['tmpl'])))
+        nt_, used = len(inp['tmpl']), set(inp['st'])
+        un = [t for t in range(nt_) if t not in used]
+        out.append('unused_templates=%s' % ('+'.join(k for k, f in (('start', 0 in un), ('middle', any(0 < t < nt_ - 1 for t in un)),
+                                                                  ('end', nt_ - 1 in un)) if f) or 'none'))
     return out
 
 
